@@ -30,6 +30,7 @@ type Profile struct {
 	ScanHeavy                bool
 	SparseReads              bool // only the reads C02 names: Get, GetAll, RangeScan, PrefixScan with a large limit
 	FixedScores              bool // every sorted-set member always gets the same score
+	MergeDuringTx            int      // percentage of write transactions during which Merge is called from another goroutine
 	GetOnly                  bool     // the only key/value read is Get (also in the observation battery)
 	ScanMaxOff               int      // largest PrefixScan offset generated (default 5)
 	BucketChoice             []string // when set, every history uses ONE bucket drawn from this list
@@ -516,6 +517,10 @@ func genHistory(r *PRNG, p Profile, seg int) []string {
 		} else {
 			g.add("begin w ?")
 		}
+		masync := !ro && r.Chance(p.MergeDuringTx, 100)
+		if masync {
+			g.add("mergeasync")
+		}
 		n := r.Range(p.OpsMin, p.OpsMax)
 		for j := 0; j < n; j++ {
 			// read-only transactions also call mutating APIs (they must fail)
@@ -533,6 +538,9 @@ func genHistory(r *PRNG, p Profile, seg int) []string {
 		} else {
 			g.add("commit")
 			g.add("rollback")
+		}
+		if masync {
+			g.add("mergewait")
 		}
 		if r.Chance(p.DoneCalls, 100) {
 			// calls on a finished transaction
@@ -611,6 +619,12 @@ func runHistory(st *St, p Profile, open string, body []string) (results []string
 				if i < len(after) && before[i] != after[i] {
 					emit("#SPEC merge-changed call=%q before=%q after=%q", obs[i], before[i], after[i])
 				}
+			}
+			continue
+		}
+		if c == "mergewait" {
+			if st.run(c) == "ok" {
+				merged = true
 			}
 			continue
 		}
